@@ -61,7 +61,7 @@ PROFILES = {
     'c01': dict(put=30, l0burst=3, dele=8, batch=8, get=14, getall=5, snap=3, release=2, flush=5, crange=6, compact=2, reopen=3, scan=3, iter=2, layout=2, longiter=0),
     'c06': dict(put=26, l0burst=3, dele=8, batch=6, get=10, getall=8, snap=9, release=5, flush=5, crange=8, compact=2, reopen=0, scan=6, iter=2, layout=2, longiter=0),
     'c07': dict(put=24, dele=8, batch=6, get=4, getall=1, snap=4, release=2, flush=5, crange=6, compact=1, reopen=1, scan=6, iter=16, layout=1, longiter=10),
-    'c13': dict(put=26, l0burst=3, dele=6, batch=6, get=4, getall=2, snap=3, release=2, flush=8, crange=10, compact=3, reopen=4, scan=2, iter=2, layout=8, longiter=8),
+    'c13': dict(plant=3, put=26, l0burst=3, dele=6, batch=6, get=4, getall=2, snap=3, release=2, flush=8, crange=10, compact=3, reopen=4, scan=2, iter=2, layout=8, longiter=8),
     'c19': dict(put=30, l0burst=3, dele=8, batch=8, get=8, getall=8, snap=2, release=1, flush=6, crange=8, compact=2, reopen=1, scan=5, iter=2, layout=3, longiter=0, repair=5),
     # c20: the c01 mix plus the lifecycle operations (harness/k2_life.h)
     'c20': dict(put=30, dele=8, batch=8, get=14, getall=5, snap=3, release=2, flush=5, crange=6, compact=2, reopen=3, scan=3, iter=2, layout=2, longiter=0,
@@ -150,6 +150,13 @@ def gen_history(rng, profile='c01', nops=80, cfg=None, heavy=None):
             ops.append('crange %d %s %s' % (rng.below(6), rand_bound(), rand_bound())); ops.append('layout')
         elif o == 'compact':
             ops.append('compact %s %s' % (rand_bound(), rand_bound())); ops.append('layout')
+        elif o == 'plant':
+            # an orphan table numbered ahead of the allocator (what a crash in the middle of a flush / compaction leaves),
+            # then something that runs the obsolete-file collector
+            ops.append('plant %d' % rng.choice([0, 1, 2, 5, 40, 900]))
+            ops.append(rng.choice(['flush', 'flush', 'crange %d * *' % rng.below(3), 'reopen' if not open_iters else 'flush']))
+            if ops[-1] == 'reopen': live_snaps = []
+            ops.append('layout')
         elif o == 'reopen':
             if not open_iters:
                 ops.append('reopen'); live_snaps = []; ops.append('layout')
@@ -306,6 +313,17 @@ def corpus_histories():
             'release 0', 'del %s' % hx('d09'), 'put %s @5:4' % hx('d10'), 'flush', 'crange 0 * *', 'crange 1 * *', 'get %s -' % hx('d09'), 'scan -',
             'reopen', 'get %s -' % hx('d07'), 'get %s -' % hx('d09'), 'scan -', 'layout']
     out.append((dict(BASE_CFG), ops))
+    # (9) case-insensitive comparator, one user key under several SPELLINGS: a value pushed to a deeper level, then a
+    #     deletion / an overwrite in another spelling merged into it by compactions that reach the base level for the key
+    #     (the "same user key as the previous entry" test of the compaction loop must use the comparator, not the bytes)
+    ops = ['open', 'put %s @6:1' % hx('date'), 'put %s @6:2' % hx('Mail'), 'put %s @6:3' % hx('zip'), 'flush', 'crange 0 * *', 'crange 1 * *', 'layout',
+           'del %s' % hx('DATE'), 'put %s @6:4' % hx('MAIL'), 'put %s @6:5' % hx('apple'), 'flush', 'layout',
+           'crange 0 * *', 'layout', 'crange 1 * *', 'layout', 'crange 2 * *', 'layout',
+           'get %s -' % hx('date'), 'get %s -' % hx('DATE'), 'get %s -' % hx('Date'), 'get %s -' % hx('mail'), 'scan -', 'rscan -',
+           'put %s @6:6' % hx('dATE'), 'snap', 'del %s' % hx('Date'), 'flush', 'compact * *', 'layout', 'get %s -' % hx('date'), 'get %s 0' % hx('DATE'), 'scan -', 'scan 0',
+           'release 0', 'put %s @6:7' % hx('zIP'), 'flush', 'compact * *', 'layout', 'get %s -' % hx('date'), 'get %s -' % hx('ZIP'), 'scan -',
+           'reopen', 'get %s -' % hx('date'), 'get %s -' % hx('zip'), 'scan -', 'layout']
+    out.append((dict(BASE_CFG, comparator=2, bloom=0), ops))
     # (5) log / MANIFEST reuse across many version edits: the reused MANIFEST grows past a 32 KiB block boundary
     #     (big keys make each edit ~6 KiB), then clean reopens
     big = lambda i: (bytes([0x62]) * 2990 + b'%04d' % i).hex()
